@@ -287,7 +287,11 @@ def run_posix(desc):
              ('[\\]-a]', rng(']', 'a'), False), ('[%--]', rng('%', '-'), False), ('[!-a]', set('-a'), True), ('[^-a]', set('-a'), True),
              ('[a^]', set('a^'), False), ('[a!]', set('a!'), False), ('[]]', set(']'), False), ('[!]]', set(']'), True), ('[a-]', set('a-'), False),
              ('[-]', set('-'), False), ('[!-]', set('-'), True), ('[\\\\]', set('\\'), False), ('[a\\]b]', set('a]b'), False),
-             ('[--]', set('-'), False), ('[0-9-a]', rng('0', '9') | set('-a'), False), ('[]-]]', None, None)]
+             ('[--]', set('-'), False), ('[0-9-a]', rng('0', '9') | set('-a'), False), ('[]-]]', None, None),
+             # an escaped backslash as a range endpoint
+             ('[A-\\\\]', rng('A', '\\'), False), ('[!A-\\\\]', rng('A', '\\'), True), ('[0-\\\\]', rng('0', '\\'), False),
+             ('[\\\\-a]', rng('\\', 'a'), False), ('[\\\\-\\]]', rng('\\', ']'), False), ('[%-\\\\x]', rng('%', '\\') | set('x'), False),
+             ('[\\\\-A]', set(), False), ('[!\\\\-A]', set(), True)]
     ascii_chars = [chr(i) for i in range(1, 128) if chr(i) != '/']
     for text, members, neg in table:
         if members is None:
